@@ -123,7 +123,7 @@ def make_config(rng: random.Random):
     cfg = dict(ny=ny, nx=nx, layout=layout, ns=ns, dtype=dtype, chunks=[cy, cx], band_chunk=band_chunk, nodata=nodata, blocksize=bs, compression=comp,
                predictor=rng.choice([None, None, True, False]) if comp != "none" else rng.choice([None, False]), spill_sz=rng.choice([0, 1 << 10, 1 << 16, None]), writes_per_chunk=rng.choice([None, 1, 2, 3]),
                stats=rng.choice([True, False, True]), bigtiff=rng.choice([True, True, False]), scheduler=rng.choice(["sync", "sync", "threads"]), workers=rng.choice([2, 4, 8]),
-               order_seed=rng.randint(0, 10**6), data_seed=rng.randint(0, 10**6), crs=rng.choice(["EPSG:3857", "EPSG:4326", "EPSG:32633"]), dest=rng.choice(["file", "file", "file", "s3"]))
+               order_seed=rng.randint(0, 10**6), data_seed=rng.randint(0, 10**6), crs=rng.choice(["EPSG:3857", "EPSG:4326", "EPSG:32633"]), dest=rng.choice(["file", "file", "file", "s3"]), data_kind=rng.choice(["random", "random", "patchy", "constant"]))
     if cfg["dest"] == "s3" and cfg["spill_sz"] == 0:
         cfg["spill_sz"] = 1 << 10  # for the S3 writer spill_sz=0 means "assemble in memory, do not upload" (returns the chunk)
     return cfg
@@ -151,6 +151,9 @@ def run_config(mon: Monitor, cfg, workdir: str) -> None:
     else:
         info = np.iinfo(dt)
         data = nprng.integers(max(info.min, -30000), min(info.max, 30000), size=shape, dtype=np.int64).astype(dt)
+    from .c15 import _patches
+
+    _patches(data, layout, cfg.get("data_kind", "random"), None, nprng)  # constant areas: whole tiles / chunks of one value
     nodata = cfg["nodata"]
     if nodata is not None:
         data[data == nodata] = data.flat[0] if data.flat[0] != nodata else 1  # nodata value stays reserved for padding
@@ -215,7 +218,7 @@ def run_config(mon: Monitor, cfg, workdir: str) -> None:
         # ---- layout rule
         if cfg["blocksize"] is None:
             dcy, dcx = xx.data.chunksize[dims.index(ydim)], xx.data.chunksize[dims.index(xdim)]
-            bl = [(dcy, dcx), int(max(dcy, dcx) // 2)]
+            bl = [(dcy, dcx), max(1, int(max(dcy, dcx) // 2))]  # default rule: chunk-sized tiles, overviews half that, never below the smallest legal tile
         else:
             bl = kw["blocksize"]
         tiles = [norm_tile(b) for b in bl]
@@ -346,6 +349,10 @@ def _guarded(mon: Monitor, cfg, workdir: str) -> None:
 
 
 PINNED = [
+    # default tile sizes derived from single-pixel dask chunks (D31)
+    dict(ny=1, nx=1, layout="YX", ns=1, dtype="uint16", chunks=[1, 1], band_chunk=1, nodata=None, blocksize=None, compression="deflate", predictor=None, spill_sz=None, writes_per_chunk=None, stats=True, bigtiff=True, scheduler="sync", workers=2, order_seed=11, data_seed=11, crs="EPSG:3857"),
+    dict(ny=1, nx=40, layout="YX", ns=1, dtype="int16", chunks=[1, 1], band_chunk=1, nodata=-9999, blocksize=None, compression="lzw", predictor=False, spill_sz=65536, writes_per_chunk=1, stats=True, bigtiff=True, scheduler="sync", workers=2, order_seed=12, data_seed=12, crs="EPSG:4326"),
+    dict(ny=12, nx=9, layout="SYX", ns=2, dtype="float32", chunks=[1, 1], band_chunk=1, nodata=None, blocksize=None, compression="zstd", predictor=None, spill_sz=0, writes_per_chunk=2, stats=False, bigtiff=False, scheduler="threads", workers=4, order_seed=13, data_seed=13, crs="EPSG:32633"),
     dict(ny=129, nx=100, layout="SYX", ns=2, dtype="int16", chunks=[32, 32], band_chunk=1, nodata=-9999, blocksize=[32, 16], compression="zstd", predictor=None, spill_sz=None, writes_per_chunk=None, stats=True, bigtiff=True, scheduler="threads", workers=4, order_seed=8, data_seed=8, crs="EPSG:3857", dest="s3"),
     # K4 (known finding): band-first cube, ns == ny == nx: both layouts match the GeoBox and the shape heuristic picks band-last although the DataArray dims say otherwise
     dict(ny=2, nx=2, layout="SYX", ns=2, dtype="float64", chunks=[200, 200], band_chunk=2, nodata=-9999, blocksize=[16], compression="lzw", predictor=True, spill_sz=0, writes_per_chunk=None, stats=True, bigtiff=True, scheduler="sync", workers=8, order_seed=765388, data_seed=116416, crs="EPSG:3857"),
